@@ -14,6 +14,9 @@
     encode_roundtrip_text encode_roundtrip_attr charref_roundtrip
     encode_every_codec
     attr_tab_lf_cr_not_recovered text_cr_not_recovered decl_encoding_echoed
+    parser_keeps_cdata_seam xml_roundtrip_adjacent_cdata merged_cdata_seam_not_wellformed
+    parse_source_agrees empty_text_child_not_idempotent et_stream_builder_shaped
+    ser_idempotent_builder_source ser_idempotent_parsed_text_source parser_layer_stream_shape
 -/
 import Genshi.Lemmas.XmlRefs
 import Genshi.Lemmas.XmlFlatD
@@ -25,6 +28,8 @@ import Genshi.Lemmas.XmlIdemE
 import Genshi.Lemmas.XmlTxtB
 import Genshi.Lemmas.XmlMerge
 import Genshi.Model.XmlParser
+import Genshi.Lemmas.XmlParser
+import Genshi.Lemmas.XmlSource
 namespace Genshi.Props.C02
 open Genshi Genshi.Xml Genshi.Escape Genshi.Xml.Reader
 
@@ -290,9 +295,14 @@ theorem ser_idempotent_builder_events (pref : List (Str × Str)) (hpref : prefOK
     gives `out` again:  `ser (parse (encode (ser s))) = ser s`.
 
     `parseText` is the specification-side account of `XMLParser` +
-    `EmptyTagFilter`; it is compared with the real parser on every serializer
-    output by the correspondence stream `reparse` (not derived from a model of
-    expat). -/
+    `EmptyTagFilter` for texts in which no start tag is directly followed by an
+    end tag (`parse_source_agrees`); the real chain reads `<a></a>` as EMPTY
+    (`parseSource`, compared with the real parser on every serializer output
+    and on source documents by the streams `reparse` / `reparse-source`; not
+    derived from a model of expat).  The statement about the real chain is
+    `ser_idempotent_builder_source` below, with the side condition that no
+    element's content is empty TEXT only; `empty_text_child_not_idempotent` is
+    the witness that the side condition cannot be dropped. -/
 theorem ser_idempotent_builder (pref : List (Str × Str)) (hpref : prefOK pref = true)
     (rep : Char → Bool) (hr : AsciiRep rep) (s : Stream)
     (h : docOK (emptyTag s) = true) (hb : builderShaped (emptyTag s) = true)
@@ -490,5 +500,231 @@ theorem decl_encoding_echoed :
                 .start ⟨[], ['a']⟩ [], .text [Char.ofNat 233] false, .end_ ⟨[], ['a']⟩]).map
       (encodeText (inRanges [(0, 255)])) =
     some ['<', '?', 'x', 'm', 'l', ' ', 'v', 'e', 'r', 's', 'i', 'o', 'n', '=', '"', '1', '.', '0', '"', ' ', 'e', 'n', 'c', 'o', 'd', 'i', 'n', 'g', '=', '"', 'u', 't', 'f', '-', '8', '"', '?', '>', '\n', '<', 'a', '>', (Char.ofNat 233), '<', '/', 'a', '>'] := by decide
+
+/-! ### adjacent CDATA sections (the seam rule)
+
+Character data that contains `]]>` can be written as CDATA in one way only:
+split over two sections that directly follow each other
+(`<![CDATA[a]]]]><![CDATA[>b]]>`).  A parser reports two sections; the
+serializer writes text inside a section verbatim, so the two pieces must never
+be joined. -/
+
+/-- the stream `<a><![CDATA[x]]><![CDATA[y]]></a>` is parsed into -/
+def twoSections (x y : Str) : Stream :=
+  [.start ⟨[], ['a']⟩ [], .startCdata, .text x false, .endCdata,
+   .startCdata, .text y false, .endCdata, .end_ ⟨[], ['a']⟩]
+
+/-- **The parser layer keeps the seams of character data.**  `_coalesce` joins
+    TEXT with TEXT only: for all streams `a`, `b` an END_CDATA directly followed
+    by a START_CDATA stays where it is and the text on its two sides is
+    coalesced separately; more generally no event other than TEXT is dropped,
+    added, moved or merged (`nonText`), and the character data between two such
+    events is the concatenation of what was there (`runs`). -/
+theorem parser_keeps_cdata_seam :
+    (∀ a b : Stream, coalesce (a ++ .endCdata :: .startCdata :: b) =
+        coalesce a ++ .endCdata :: .startCdata :: coalesce b) ∧
+    (∀ (a b : Stream) (e : Event), isText e = false → coalesce (a ++ e :: b) = coalesce a ++ e :: coalesce b) ∧
+    (∀ s : Stream, nonText (coalesce s) = nonText s) ∧
+    (∀ s : Stream, runs (coalesce s) = runs s) :=
+  ⟨coalesce_cdata_seam, coalesce_append_nontext, nonText_coalesce, runs_coalesce⟩
+
+/-- expat's callbacks for `<a>p<![CDATA[x]]]]><![CDATA[>]]><![CDATA[]]>y&amp;z</a>` (character data arrives in
+    pieces) through `_handle_*` and `_coalesce`: three sections, the seam `]]` | `>` kept -/
+example :
+    coalesce (runCbs (fun _ => none)
+      [.startEl ['a'] [], .data ['p'], .startCdata, .data ['x'], .data [']', ']'], .endCdata,
+       .startCdata, .data ['>'], .endCdata, .startCdata, .endCdata, .data ['y'], .data ['&'], .data ['z'],
+       .endEl ['a']]).1 =
+    [.start ⟨[], ['a']⟩ [], .text ['p'] false, .startCdata, .text ['x', ']', ']'] false, .endCdata,
+     .startCdata, .text ['>'] false, .endCdata, .startCdata, .endCdata, .text ['y', '&', 'z'] false,
+     .end_ ⟨[], ['a']⟩] := by decide
+
+/-- **xml_roundtrip covers adjacent CDATA sections**: for ALL section texts `x`,
+    `y` that CDATA can hold (`cdataOK`: XML characters, no CR, no `]]>` — `x`
+    may well end in `]]` and `y` start with `>`) and that the encoding can
+    represent, the document `<a><![CDATA[x]]><![CDATA[y]]></a>` as parsed
+    (two sections) is inside the hypotheses of `xml_roundtrip`, and the reader
+    gets two sections with the same texts back from the serializer's output. -/
+theorem xml_roundtrip_adjacent_cdata (rep : Char → Bool) (hr : AsciiRep rep) (x y : Str)
+    (hx : cdataOK x = true) (hy : cdataOK y = true) (hx0 : x ≠ []) (hy0 : y ≠ [])
+    (hxr : x.all rep = true) (hyr : y.all rep = true) :
+    ∃ out, serRun SerSt.init (flatten defaultPref (emptyTag (twoSections x y))) = some out ∧
+      Reader.read (encodeText rep out) =
+        some [.start ⟨[], ['a']⟩ [], .startCdata, .text x, .endCdata,
+              .startCdata, .text y, .endCdata, .end_ ⟨[], ['a']⟩] := by
+  have hn : WellNested (twoSections x y) := by simp [WellNested, twoSections, balance]
+  have hd : docOK (emptyTag (twoSections x y)) = true := by
+    simp [twoSections, emptyTag, emptyTagGo, docOK, docGo, ckStep, ckStartLike, CkSt.init, tagOK, attrsOK,
+      locOK, nsOK, nodupKeys]
+    decide
+  have fx : flushF x = [.other (.text x false)] := by cases x <;> simp_all [flushF]
+  have fy : flushF y = [.other (.text y false)] := by cases y <;> simp_all [flushF]
+  have ex : x.isEmpty = false := by cases x <;> simp_all
+  have ey : y.isEmpty = false := by cases y <;> simp_all
+  have ra : rep 'a' = true := hr _ (by decide)
+  have rx : rep 'x' = true := hr _ (by decide)
+  have rm : rep 'm' = true := hr _ (by decide)
+  have rl : rep 'l' = true := hr _ (by decide)
+  have hp : prefTxt rep defaultPref = true := by
+    simp [prefTxt, defaultPref, Genshi.Gen.Xml.flattenerInitial, prefixTxt, nameTxt, rx, rm, rl]
+    decide
+  have hq : qnameTxt rep ⟨[], ['a']⟩ = true := by
+    simp [qnameTxt, nameTxt, uriTxt, ra]
+    decide
+  have hv : validName ['x'] = true := by decide
+  have ht : inputTextOKm rep defaultPref (emptyTag (twoSections x y)) = true := by
+    simp [twoSections, emptyTag, emptyTagGo, inputTextOKm, skeleton, mergeF, mergeFGo, docTextOK, contentOK,
+      repMarkup, repMarkupGo, evTxt, noSafeText, hx, hy, ex, ey, fx, fy, hxr, hyr, dummyName, flatAttrsOK,
+      hp, hq, hv, rx, attrsTxt]
+  obtain ⟨out, h1, h2⟩ := xml_roundtrip defaultPref default_pref_ok rep hr _ hn hd ht
+  refine ⟨out, h1, ?_⟩
+  rw [h2]
+  simp [twoSections, canonS, canonEv, mergeR, mergeRGo, flushR, hx0, hy0]
+
+/-- a seam that spells `]]>` is inside the hypotheses and comes back as written -/
+example :
+    let s := twoSections ['a', ']', ']'] ['>', 'b']
+    WellNested s ∧ docOK (emptyTag s) = true ∧ inputTextOKm (inRanges [(0, 127)]) defaultPref (emptyTag s) = true ∧
+    serialize s = some ['<','a','>','<','!','[','C','D','A','T','A','[','a',']',']',']',']','>',
+                        '<','!','[','C','D','A','T','A','[','>','b',']',']','>','<','/','a','>'] := by
+  refine ⟨by decide, by decide, by decide, by decide⟩
+
+/-- **Witness: joining the two sections is what must not happen.**  The stream
+    with ONE section holding `a]]>b` (what a parser layer that merged directly
+    adjacent sections would deliver for `<a><![CDATA[a]]]]><![CDATA[>b]]></a>`)
+    is outside `inputTextOKm` (no CDATA section can hold `]]>`), the serializer
+    writes it verbatim and the reader rejects the output. -/
+theorem merged_cdata_seam_not_wellformed :
+    let s : Stream := [.start ⟨[], ['a']⟩ [], .startCdata, .text ['a', ']', ']', '>', 'b'] false, .endCdata,
+                       .end_ ⟨[], ['a']⟩]
+    docOK (emptyTag s) = true ∧ inputTextOKm (fun _ => true) defaultPref (emptyTag s) = false ∧
+    (serialize s).bind Reader.read = none ∧
+    coalesce (twoSections ['a', ']', ']'] ['>', 'b']) = twoSections ['a', ']', ']'] ['>', 'b'] := by
+  refine ⟨by decide, by decide, by decide, by decide⟩
+
+/-! ### the parser on source documents, `ET()` -/
+
+/-- **`parseSource` and `parseText` agree wherever no start tag is directly
+    followed by an end tag.**  `parseText` (the parser as the idempotence
+    theorems see it) reads `<a></a>` as START, END; the real parser chain
+    (expat, then `EmptyTagFilter`) reads it as EMPTY, like `<a/>`; `parseSource`
+    does so too and is the function compared with the real `XMLParser` +
+    `EmptyTagFilter` on serializer output AND on source documents (streams
+    `reparse`, `reparse-source`). -/
+theorem parse_source_agrees (t : Str) (toks : List FEv) (h : Reader.tokenize t = some toks)
+    (hn : noStartEnd (dropTopWs 0 toks) = true) : parseSource t = parseText t :=
+  parseSource_eq_parseText t toks h hn
+
+/-- non-vacuity: a source document with single quotes, a reference, CDATA and an empty-element tag -/
+example :
+    let t : Str := ['<','a',' ','x','=','\'','1','\'','>','&','#','6','0',';','<','b','/','>','<','!','[','C','D','A','T','A','[','c',']',']','>','<','/','a','>']
+    (Reader.tokenize t).isSome = true ∧ parseSource t = parseText t ∧
+    parseSource t = some [.ev (.start ⟨[], ['a']⟩ [(⟨[], ['x']⟩, ['1'])]), .ev (.text ['<'] false), .empty ⟨[], ['b']⟩ [],
+                          .ev .startCdata, .ev (.text ['c'] false), .ev .endCdata, .ev (.end_ ⟨[], ['a']⟩)] := by
+  refine ⟨by decide, by decide, by decide⟩
+
+/-- **Witness: where they differ, idempotence is lost.**  A builder stream whose
+    only child is the empty string (`tag.a('')`) is serialised as `<a></a>`; the
+    real parser chain reads that as EMPTY (`parseSource`; `parseText` does not)
+    and the second serialisation is `<a/>`.  So `ser_idempotent_builder`, stated
+    with `parseText`, says nothing true of the real code for an element whose
+    content is empty TEXT events only: XML has no empty text node, the oracle
+    keeps such trees out (`tree_in_domain`), the real code behaves as this
+    witness says. -/
+theorem empty_text_child_not_idempotent :
+    let s : Stream := [.start ⟨[], ['a']⟩ [], .text [] false, .end_ ⟨[], ['a']⟩]
+    docOK (emptyTag s) = true ∧ builderShaped (emptyTag s) = true ∧
+    serialize s = some ['<','a','>','<','/','a','>'] ∧
+    parseText ['<','a','>','<','/','a','>'] = some [.ev (.start ⟨[], ['a']⟩ []), .ev (.end_ ⟨[], ['a']⟩)] ∧
+    parseSource ['<','a','>','<','/','a','>'] = some [.empty ⟨[], ['a']⟩ []] ∧
+    serRun SerSt.init (flatten defaultPref [.empty ⟨[], ['a']⟩ []]) = some ['<','a','/','>'] := by
+  refine ⟨by decide, by decide, by decide, by decide, by decide, by decide⟩
+
+/-- **`ET(element)` delivers a well-nested builder-shaped stream** for every
+    ElementTree element (any tags, attribute names, texts, tails, nesting): no
+    namespace events, start and end tags balanced — so on `docOK ∧ inputTextOKm`
+    the theorems for builder streams (`xml_roundtrip`, `ser_idempotent_builder`)
+    apply to it as they do to `genshi.builder` output. -/
+theorem et_stream_builder_shaped (t : ETree) :
+    WellNested (etStream t) ∧ builderShaped (emptyTag (etStream t)) = true :=
+  ⟨wellNested_etStream t, builderShaped_etStream t⟩
+
+/-- `ET` of `<{u}a x="1">t<b/>tail</{u}a>`: inside the hypotheses of `xml_roundtrip` -/
+example :
+    let s := etStream (.node ['{','u','}','a'] [(['x'], ['1'])] (some ['t']) [.node ['b'] [] none [] (some ['w'])] none)
+    s = [.start ⟨['u'], ['a']⟩ [(⟨[], ['x']⟩, ['1'])], .text ['t'] false, .start ⟨[], ['b']⟩ [], .end_ ⟨[], ['b']⟩,
+         .text ['w'] false, .end_ ⟨['u'], ['a']⟩] ∧
+    docOK (emptyTag s) = true ∧ inputTextOKm (inRanges [(0, 127)]) defaultPref (emptyTag s) = true := by
+  refine ⟨by decide, by decide, by decide⟩
+
+/-- **ser_idempotent for builder streams through the real parser chain**
+    (`parseSource`: `<a></a>` is read as EMPTY, as expat + `EmptyTagFilter` do).
+    Same hypotheses as `ser_idempotent_builder` plus the decidable side
+    condition `noStartEndX (mergeX (emptyTag s))`: once adjacent TEXT events are
+    merged and empty ones dropped, no START is followed by its END with nothing
+    between them — i.e. no element's content consists of empty TEXT events only
+    (an element without children is EMPTY after `EmptyTagFilter` and is fine).
+    Then `ser (parseSource (encode (ser s))) = ser s`.  The side condition
+    cannot be dropped: `empty_text_child_not_idempotent`. -/
+theorem ser_idempotent_builder_source (pref : List (Str × Str)) (hpref : prefOK pref = true)
+    (rep : Char → Bool) (hr : AsciiRep rep) (s : Stream)
+    (h : docOK (emptyTag s) = true) (hb : builderShaped (emptyTag s) = true)
+    (ht : inputTextOKm rep pref (emptyTag s) = true)
+    (hne : noStartEndX (mergeX (emptyTag s)) = true) :
+    ∃ out, serRun SerSt.init (flatten pref (emptyTag s)) = some out ∧
+      ∃ xs2, parseSource (encodeText rep out) = some xs2 ∧
+        serRun SerSt.init (flatten pref xs2) = some out :=
+  idem_text_builder_source pref hpref rep hr _ h hb ht hne
+
+/-- **… and for parser-shaped streams** (`idemOK`, `inputTextOK`): the same
+    conclusion with `parseSource`, side condition `noStartEndX (emptyTag s)`
+    (START and END with nothing but namespace events between them do not
+    occur; `EmptyTagFilter` guarantees it for what it is given by a parser,
+    where TEXT events are never empty). -/
+theorem ser_idempotent_parsed_text_source (pref : List (Str × Str)) (hpref : prefOK pref = true)
+    (rep : Char → Bool) (hr : AsciiRep rep) (s : Stream)
+    (h : docOK (emptyTag s) = true) (hi : idemOK pref (emptyTag s) = true)
+    (ht : inputTextOK rep pref (emptyTag s) = true)
+    (hne : noStartEndX (emptyTag s) = true) :
+    ∃ out, serRun SerSt.init (flatten pref (emptyTag s)) = some out ∧
+      ∃ xs2, parseSource (encodeText rep out) = some xs2 ∧
+        serRun SerSt.init (flatten pref xs2) = some out :=
+  idem_text_parsed_source pref hpref rep hr _ h hi ht hne
+
+/-- the builder tree of the example above (two namespaces, made-up prefixes, `xmlns=""`, adjacent and empty
+    strings beside real ones) satisfies the side condition; `tag.a('')` does not -/
+example :
+    let s : Stream :=
+      [.start ⟨['u'], ['a']⟩ [(⟨['v'], ['x']⟩, ['1']), (⟨['u'], ['y']⟩, ['2'])],
+       .text ['t'] false, .text [] false, .text ['&'] false,
+       .start ⟨[], ['d']⟩ [], .start ⟨['u'], ['e']⟩ [(⟨['v'], ['z']⟩, ['3'])], .end_ ⟨['u'], ['e']⟩, .end_ ⟨[], ['d']⟩,
+       .end_ ⟨['u'], ['a']⟩]
+    docOK (emptyTag s) = true ∧ builderShaped (emptyTag s) = true ∧
+    inputTextOKm (inRanges [(0, 127)]) defaultPref (emptyTag s) = true ∧
+    noStartEndX (mergeX (emptyTag s)) = true ∧
+    noStartEndX (mergeX (emptyTag [.start ⟨[], ['a']⟩ [], .text [] false, .end_ ⟨[], ['a']⟩])) = false := by
+  refine ⟨by decide, by decide, by decide, by decide, by decide⟩
+
+/-- a parsed document with declarations (namespace events between the tags) satisfies it -/
+example : noStartEndX (emptyTag
+    [.startNs [] ['u'], .start ⟨['u'], ['a']⟩ [], .startNs ['q'] ['v'], .start ⟨['v'], ['b']⟩ [], .end_ ⟨['v'], ['b']⟩,
+     .endNs ['q'], .text ['t'] false, .end_ ⟨['u'], ['a']⟩, .endNs []]) = true := by decide
+
+/-- **What `XMLParser` delivers, whatever expat calls** (any callback sequence,
+    any entity table): no two TEXT events in a row, no `Markup` text (the
+    `noSafeText` clause of `inputTextOKm`), and the events other than TEXT are
+    exactly those the `_handle_*` callbacks enqueued, in order — `_coalesce`
+    touches character data only. -/
+theorem parser_layer_stream_shape (entity : Str → Option Char) (cbs : List Cb) :
+    NoAdjText (parseCbs entity cbs).1 ∧ (parseCbs entity cbs).1.all plainText = true ∧
+    nonText (parseCbs entity cbs).1 = nonText (runCbs entity cbs).1 :=
+  parseCbs_shape entity cbs
+
+/-- an undefined entity ends the parse after the events enqueued so far (`false`), a defined one becomes text
+    that is coalesced with its neighbours -/
+example :
+    parseCbs (fun n => if n = ['n','b','s','p'] then some (Char.ofNat 160) else none)
+      [.startEl ['a'] [], .data ['x'], .other ['&','n','b','s','p',';'], .data ['y'], .other ['&','z',';'], .data ['w']] =
+    ([.start ⟨[], ['a']⟩ [], .text ['x', Char.ofNat 160, 'y'] false], false) := by decide
 
 end Genshi.Props.C02
